@@ -49,6 +49,8 @@ def _pick(rows, i, j):
 def getitem(I, obj, idx):
     from .libpd import series_getitem, indexer_getitem, frame_getitem
     if isinstance(obj, SArr):
+        if getattr(obj, "stale", False):
+            raise Undecided("array read after it was overwritten in place through a view (values not modelled)")
         return arr_getitem(I, obj, idx)
     if isinstance(obj, SSeries):
         return series_getitem(I, obj, idx)
@@ -1517,3 +1519,19 @@ def sp_periodogram(I, args, kwargs):
 def np_diff(I, args, kwargs):
     USED.add("np.diff(X, n): opaque function of X (provenance only)")
     return Opaque("differences", prov=("diff", args[0], arg(args, kwargs, 1, "n", 1)))
+
+
+def inplace_array_update(I, target_expr, old, new, env):
+    """`a op= b` for a numpy array: rebinding every alias (functional model of the in-place write) and reporting the write to
+    frame obligations, also for the arrays `a` is a view of"""
+    base = getattr(old, "view_of", None)
+    seen = 0
+    while base is not None and seen < 8:
+        b = base[0]
+        if I.ctx.frozen and id(b) in I.ctx.frozen:
+            I.ctx.mutated.append((b, "in-place operator on a view of it"))
+        b.stale = True            # its cells were overwritten through the view: reading them again is not modelled
+        base = getattr(b, "view_of", None)
+        seen += 1
+    sq = getattr(old, "_agg_key", None)
+    _rebind(I, target_expr, new, env, old)
